@@ -198,6 +198,7 @@ type tkind struct {
 	elem *tkind // list element
 	alen int64  // array length, -1 for slices and strings
 	fn   string // Coq arrow type of a func-typed value
+	key  *tkind // map key
 }
 
 var usesGoList bool
@@ -281,6 +282,20 @@ func kindOfType(ty types.Type) (tkind, bool) {
 		return kindOfType(types.Unalias(a))
 	}
 	switch u := ty.Underlying().(type) {
+	case *types.Map:
+		// a map is an association list (first pair for a key counts, insertion keeps keys unique)
+		kk, ok := kindOfType(u.Key())
+		if !ok || kk.eqb() == "" {
+			return tkind{}, false
+		}
+		var vk tkind
+		if st, isSt := u.Elem().(*types.Struct); isSt && st.NumFields() == 0 {
+			vk = tkind{k: "bool"} // map[K]struct{}: a set; the value carries nothing
+		} else if vk, ok = kindOfType(u.Elem()); !ok || vk.k == "func" {
+			return tkind{}, false
+		}
+		usesGoList = true
+		return tkind{k: "map", elem: &vk, key: &kk}, true
 	case *types.Slice:
 		if ek, ok := kindOfType(u.Elem()); ok {
 			usesGoList = true
@@ -340,6 +355,8 @@ func (k tkind) coq() string {
 		return k.fn
 	case "iface":
 		return "I_" + k.name
+	case "map":
+		return "(list (" + k.key.coq() + " * " + k.elem.coq() + "))"
 	}
 	return "?"
 }
@@ -388,6 +405,8 @@ func (t *ftr) zeroK(k tkind, ty types.Type, at ast.Node) string {
 		return "(0)%N"
 	case "iface":
 		return "I_" + k.name + "_nil"
+	case "map":
+		return "(@nil (" + k.key.coq() + " * " + k.elem.coq() + "))"
 	case "list":
 		if k.alen >= 0 {
 			var ety types.Type
@@ -456,6 +475,20 @@ func structUnder(ty types.Type) *types.Struct {
 	return nil
 }
 
+// mapFields (spec field "map_fields"): struct fields of map type are part of the emitted Records. Off by default
+// so that Records generated before maps were translatable keep their shape.
+var mapFields bool
+
+func kindHasMap(k tkind) bool {
+	if k.k == "map" {
+		return true
+	}
+	if k.elem != nil && k.k == "list" {
+		return kindHasMap(*k.elem)
+	}
+	return false
+}
+
 func keptFieldsOf(st *types.Struct) []bool {
 	if m, ok := keptMemo[st]; ok {
 		return m
@@ -467,8 +500,12 @@ func keptFieldsOf(st *types.Struct) []bool {
 		if f.Name() == "_" {
 			continue
 		}
-		if _, ok := kindOfType(f.Type()); !ok {
+		fk, ok := kindOfType(f.Type())
+		if !ok {
 			continue
+		}
+		if !mapFields && kindHasMap(fk) {
+			continue // struct fields of map type enter the Records only under "map_fields": true
 		}
 		if inner := structUnder(f.Type()); inner != nil {
 			if keptPath[inner] {
@@ -541,6 +578,13 @@ func (t *ftr) ensureKind(k tkind, ty types.Type, at ast.Node) {
 	case "iface":
 		if inf := ifaceOf(ty); inf != nil {
 			t.ensureIface(inf, at)
+		}
+	case "map":
+		ensureMapHelpers()
+		if m, ok := types.Unalias(ty).Underlying().(*types.Map); ok {
+			if _, isSt := m.Elem().(*types.Struct); !isSt {
+				t.ensureKind(*k.elem, m.Elem(), at)
+			}
 		}
 	case "list":
 		switch u := types.Unalias(ty).Underlying().(type) {
@@ -846,6 +890,9 @@ func (t *ftr) expr(e ast.Expr) string {
 		return t.binary(e)
 	case *ast.IndexExpr:
 		bk := t.kindOf(e.X)
+		if bk.k == "map" {
+			return t.mapIndex(e, bk)
+		}
 		if bk.k != "list" {
 			t.bad(e, "index into a non-list")
 		}
@@ -918,6 +965,22 @@ func (t *ftr) expr(e ast.Expr) string {
 
 func (t *ftr) composite(e *ast.CompositeLit) string {
 	ty := t.typeOf(e)
+	if k, ok := kindOfType(ty); ok && k.k == "map" {
+		t.ensureKind(k, ty, e)
+		acc := t.zeroK(k, nil, e)
+		for _, el := range e.Elts {
+			kv, ok := el.(*ast.KeyValueExpr)
+			if !ok {
+				t.bad(e, "map literal element")
+			}
+			val := "true"
+			if _, isSt := types.Unalias(ty).Underlying().(*types.Map).Elem().(*types.Struct); !isSt {
+				val = t.exprAs(kv.Value, *k.elem)
+			}
+			acc = "(go_map_set " + k.key.eqb() + " " + acc + " " + t.exprAs(kv.Key, *k.key) + " " + val + ")"
+		}
+		return acc
+	}
 	if k, ok := kindOfType(ty); ok && k.k == "list" {
 		var ety types.Type
 		switch u := types.Unalias(ty).Underlying().(type) {
@@ -1032,6 +1095,8 @@ func (t *ftr) binary(e *ast.BinaryExpr) string {
 				isnil = "(Z.eqb (go_len " + t.expr(o) + ") (0)%Z)"
 			case ok.k == "iface":
 				isnil = "(match " + t.expr(o) + " with I_" + ok.name + "_nil => true | _ => false end)"
+			case ok.k == "map":
+				isnil = "(match " + t.expr(o) + " with nil => true | _ => false end)"
 			case ok.k == "struct" && isPtr && (assumeNonNil || t.isRecvIdent(o)):
 				// the receiver of a translated method is the value it points to, hence non-nil
 				isnil = "false"
@@ -1158,6 +1223,8 @@ func (t *ftr) exprAs(e ast.Expr, k tkind) string {
 			return "false"
 		case "list":
 			return "(@nil " + k.elem.coq() + ")"
+		case "map":
+			return t.zeroK(k, nil, e)
 		}
 		t.bad(e, "nil where a %s is expected", k.k)
 	}
@@ -1350,6 +1417,9 @@ func (t *ftr) call(e *ast.CallExpr) string {
 				}
 				return acc
 			case "len":
+				if t.kindOf(e.Args[0]).k == "map" {
+					return "(Z.of_nat (length " + t.expr(e.Args[0]) + "))"
+				}
 				if t.kindOf(e.Args[0]).k != "list" {
 					t.bad(e, "len of a non-list")
 				}
@@ -1373,6 +1443,9 @@ func (t *ftr) call(e *ast.CallExpr) string {
 				return "(" + acc + " ++ [" + strings.Join(parts, "; ") + "])"
 			case "make":
 				k := t.kindOf(e)
+				if k.k == "map" {
+					return t.zeroK(k, nil, e)
+				}
 				if k.k != "list" {
 					t.bad(e, "make of a non-slice")
 				}
@@ -1540,6 +1613,9 @@ func (t *ftr) refuseCallerVisible(lhs ast.Expr, base *ast.Ident, what string) {
 	ty := types.Unalias(obj.Type())
 	_, isPtr := ty.(*types.Pointer)
 	_, isSlice := ty.Underlying().(*types.Slice)
+	if _, isMap := ty.Underlying().(*types.Map); isMap && what == "element" {
+		isSlice = true
+	}
 	if isPtr || (isSlice && what == "element") {
 		t.bad(lhs, "assignment to %s of parameter %s is visible to the caller and cannot be shown by a pure translation (set \"allow_param_mutation\": true on the item if the caller-visible effect is irrelevant)", what, base.Name)
 	}
@@ -1627,6 +1703,12 @@ func (t *ftr) lvalUpdate(lhs ast.Expr, val string) string {
 			}
 		}
 	case *ast.IndexExpr:
+		if mk := t.kindOf(l.X); mk.k == "map" {
+			if _, isSt := types.Unalias(t.typeOf(l.X)).Underlying().(*types.Map).Elem().(*types.Struct); isSt {
+				val = "true"
+			}
+			return t.lvalUpdate(l.X, "(go_map_set "+mk.key.eqb()+" "+t.expr(l.X)+" "+t.exprAs(l.Index, *mk.key)+" "+val+")")
+		}
 		if t.kindOf(l.X).k == "list" {
 			return t.lvalUpdate(l.X, "(go_upd "+t.expr(l.X)+" "+t.toZ(l.Index)+" "+val+")")
 		}
@@ -1873,6 +1955,14 @@ func (t *ftr) block(list []ast.Stmt, k func() string) string {
 							t.assignTo(s.Lhs[0], "tmp_res", func() string { return t.assignTo(rx, "tmp_recv", restK) })+")")
 					}
 				}
+				if ix, ok := s.Lhs[0].(*ast.IndexExpr); ok && len(s.Lhs) == 1 {
+					if mt, ok := types.Unalias(t.typeOf(ix.X)).Underlying().(*types.Map); ok {
+						if st, isSt := mt.Elem().(*types.Struct); isSt && st.NumFields() == 0 {
+							// set[k] = struct{}{}: membership only
+							return t.assignTo(s.Lhs[0], "true", restK)
+						}
+					}
+				}
 				if len(s.Lhs) == 1 {
 					var v string
 					if id, ok := s.Lhs[0].(*ast.Ident); ok && id.Name == "_" {
@@ -2087,6 +2177,27 @@ func (t *ftr) block(list []ast.Stmt, k func() string) string {
 				}
 				pat := strings.Repeat("_, ", nres) + "tmp_recv"
 				return t.wrapPending(pend, "(let '("+pat+") := "+call+" in\n  "+t.assignTo(recvX, "tmp_recv", restK)+")")
+			}
+			if id, ok := c.Fun.(*ast.Ident); ok && id.Name == "delete" {
+				if _, isB := t.pi.info.Uses[id].(*types.Builtin); isB && len(c.Args) == 2 {
+					mk := t.kindOf(c.Args[0])
+					if mk.k != "map" {
+						t.bad(s, "delete on a non-map")
+					}
+					base := rootIdent(c.Args[0])
+					if base == nil {
+						t.bad(s, "delete: the map is not an assignable path")
+					}
+					t.refuseCallerVisible(c.Args[0], base, "element")
+					v := "(go_map_del " + mk.key.eqb() + " " + t.expr(c.Args[0]) + " " + t.exprAs(c.Args[1], *mk.key) + ")"
+					pend := t.takePending()
+					obj := t.objOf(base)
+					bk, ok := kindOfType(derefStruct(obj.Type()))
+					if !ok {
+						t.bad(s, "variable %s has unsupported type", base.Name)
+					}
+					return t.wrapPending(pend, t.letIn(t.nameOf(obj), bk.coq(), t.lvalUpdate(c.Args[0], v), restK))
+				}
 			}
 			if id, ok := c.Fun.(*ast.Ident); ok && id.Name == "copy" {
 				if _, isB := t.pi.info.Uses[id].(*types.Builtin); isB && len(c.Args) == 2 {
@@ -2490,6 +2601,37 @@ func (t *ftr) rangeLoop(s *ast.RangeStmt, rest func() string) string {
 		cond := func() (string, []pendCall) { return "(Z.ltb " + rI + " (go_len " + rS + "))", nil }
 		return t.wrapPending(pend, "(let "+rSrc+" := "+src+" in\n  "+
 			t.emitLoop(s, lead, []string{rSrc}, "(S (length "+rSrc+"))", true, nil, cond, body, rest)+")")
+	case "map":
+		if !mapRangeOK {
+			t.bad(s, "range over a map: Go's iteration order is unspecified; set \"map_range_in_list_order\": true on the item if the loop's result does not depend on the order (the translation visits the pairs in the association list's order)")
+		}
+		mt := types.Unalias(xt).Underlying().(*types.Map)
+		zk := t.zeroK(*xk.key, mt.Key(), s)
+		zv := "false"
+		if st, isSt := mt.Elem().(*types.Struct); !(isSt && st.NumFields() == 0) {
+			zv = t.zeroName(*xk.elem, mt.Elem(), s)
+		}
+		d := "(" + zk + ", " + zv + ")"
+		lead := []envVar{{rS, xk.coq()}}
+		body := func(k func() string) string {
+			inner := func() string { return t.block(s.Body.List, k) }
+			if vo, ok := keyObj(s.Value); ok {
+				in2 := inner
+				inner = func() string {
+					return t.letIn(t.nameOf(vo), xk.elem.coq(), "(snd (go_idx "+d+" "+rS+" "+rI+"))", in2)
+				}
+			}
+			if ko, ok := keyObj(s.Key); ok {
+				in3 := inner
+				inner = func() string {
+					return t.letIn(t.nameOf(ko), xk.key.coq(), "(fst (go_idx "+d+" "+rS+" "+rI+"))", in3)
+				}
+			}
+			return inner()
+		}
+		cond := func() (string, []pendCall) { return "(Z.ltb " + rI + " (go_len " + rS + "))", nil }
+		return t.wrapPending(pend, "(let "+rSrc+" := "+src+" in\n  "+
+			t.emitLoop(s, lead, []string{rSrc}, "(S (length "+rSrc+"))", true, nil, cond, body, rest)+")")
 	case "Z", "N":
 		// for i := range n
 		if s.Value != nil {
@@ -2607,6 +2749,11 @@ func isMutator(pi *pkgInfo, dir, fn string) bool {
 						res = true
 					}
 				case *ast.CallExpr:
+					if id, ok := x.Fun.(*ast.Ident); ok && id.Name == "delete" && len(x.Args) == 2 && isRecv(x.Args[0]) {
+						if _, plain := x.Args[0].(*ast.Ident); !plain {
+							res = true
+						}
+					}
 					if id, ok := x.Fun.(*ast.Ident); ok && id.Name == "copy" && len(x.Args) == 2 && isRecv(x.Args[0]) {
 						if _, plain := x.Args[0].(*ast.Ident); !plain {
 							res = true
@@ -2717,6 +2864,11 @@ func needsFuel(pi *pkgInfo, dir, fn string) bool {
 // `let '(vars) := if c then … else … in rest` over the variables the branches assign — instead of
 // copying the rest of the function into both branches. A run of n such statements is then linear, not 2^n.
 var joinIfs bool
+
+// mapRangeOK (item flag "map_range_in_list_order"): `for k, v := range m` over a map is translated as a walk over
+// the association list in its own order — one of the orders Go may choose; exact only for loops whose effect does
+// not depend on the order.
+var mapRangeOK bool
 
 // joinNested (item flag "join_nested_ifs", implies join_ifs): the join-point form is also used for an if
 // statement with an init clause (its variables live inside the statement) and for one whose branches contain
@@ -2908,6 +3060,7 @@ func doPureFunc(it Item) {
 	asciiStrings = it.ASCIIStrings
 	joinIfs = it.JoinIfs || it.JoinNestedIfs
 	joinNested = it.JoinNestedIfs
+	mapRangeOK = it.MapRangeInListOrder
 	pi := loadPkg(it.Pkg)
 	name := ensureFunc(pi, it.Pkg, it.Func, nil)
 	if it.As != "" && it.As != name {
@@ -2928,6 +3081,7 @@ func doLoopFunc(it Item) {
 	asciiStrings = it.ASCIIStrings
 	joinIfs = it.JoinIfs || it.JoinNestedIfs
 	joinNested = it.JoinNestedIfs
+	mapRangeOK = it.MapRangeInListOrder
 	assumeNonNil = it.NonNilPointers
 	pi := loadPkg(it.Pkg)
 	fd := pi.findFunc(it.Func)
